@@ -6,6 +6,35 @@ import os
 from . import absstate, env, tlc
 
 
+WQ = 1000
+
+
+def _qweights(swarm):
+    """Normalised particle weights as integers out of WQ (TLC has no floats); None when not finite."""
+    import numpy as np
+    try:
+        w = np.asarray(swarm.weights, dtype=float)
+    except Exception:  # noqa
+        return None
+    if not np.all(np.isfinite(w)):
+        return None
+    return [int(round(float(x) * WQ)) for x in w]
+
+
+def _wrap_swarm_method(orig, name, evname, events, proj):
+    def f(self):
+        before = self.swarm
+        wb = _qweights(before) if (evname == "resample" and before is not None) else None
+        r = orig[name](self)
+        ev = {"ev": evname, "xs": [proj(p) for p in self.swarm.particles], "w": _qweights(self.swarm)}
+        if evname == "resample":
+            ev["wb"] = wb
+            ev["resampled"] = self.swarm is not before
+        events.append(ev)
+        return r
+    return f
+
+
 @contextlib.contextmanager
 def record_csmc(events):
     """Wraps ConditionalSMCSampler._init_swarm/_resample_swarm/_update_swarm, RootPermutationDistribution.sample and
@@ -25,11 +54,7 @@ def record_csmc(events):
     orig_sel = P._sample_tree_from_swarm
 
     def wrap(name, evname):
-        def f(self):
-            r = orig[name](self)
-            events.append({"ev": evname, "xs": [absstate.to_json(absstate.quick_key(p.tree)) for p in self.swarm.particles]})
-            return r
-        return f
+        return _wrap_swarm_method(orig, name, evname, events, lambda p: absstate.to_json(absstate.quick_key(p.tree)))
 
     def sample(tree, rng, source=None):
         out = orig_sample.__func__(tree, rng, source=source)
@@ -55,6 +80,12 @@ def record_csmc(events):
         P._sample_tree_from_swarm = orig_sel
 
 
+def _thr_rational(x):
+    from fractions import Fraction
+    fr = Fraction(x).limit_denominator(20)
+    return fr.numerator, fr.denominator
+
+
 def validate(job, traces, n, np_, outl, workers=None, timeout=3000, conditional=True):
     d = env.scratch(os.path.join("tlc", job))
     path = os.path.join(d, "traces.json")
@@ -62,6 +93,16 @@ def validate(job, traces, n, np_, outl, workers=None, timeout=3000, conditional=
         json.dump(traces, fh)
     cfg = tlc.cfg_text(constants={"N": n, "NP": np_, "OutlierOn": tlc.tla_bool(outl), "Starts": "{}", "Conditional": tlc.tla_bool(conditional)}, init="TraceInit", next_="TraceNext",
                        invariants=["RetainedInSlot1", "LineagesHoldPrefix", "LineagesCompatible", "RetainedPathIsInput", "OutputComplete", "Accepted"])
+    for t in traces:
+        t.setdefault("thr", [3, 5])
+        for e in t["events"]:
+            if e["ev"] in ("init", "resample", "update"):
+                if e.get("w") is None:
+                    e["w"] = []
+                if e["ev"] == "resample":
+                    if e.get("wb") is None:
+                        e["wb"] = []
+                    e.setdefault("resampled", True)
     r = tlc.run_tlc(job, "TracePGibbs", cfg, workers=workers, timeout=timeout, environ={"TRACE_FILE": path})
     matched = set()
     for ln in r.tuple_prints:
@@ -86,11 +127,7 @@ def record_usmc(events):
     empty = {"f": [], "o": []}
 
     def wrap(name, evname):
-        def f(self):
-            r = orig[name](self)
-            events.append({"ev": evname, "xs": [empty if p is None else absstate.to_json(absstate.quick_key(p.tree)) for p in self.swarm.particles]})
-            return r
-        return f
+        return _wrap_swarm_method(orig, name, evname, events, lambda p: empty if p is None else absstate.to_json(absstate.quick_key(p.tree)))
 
     def sample(tree, rng, source=None):
         out = orig_sample.__func__(tree, rng, source=source)
@@ -132,7 +169,7 @@ def record_burnin_runs(n, np_, outl, kernel_name, seed, iters, threshold=0.6):
         if ev and ev[0].get("ev") == "unavailable":
             return None
         ev.append({"ev": "select", "out": absstate.to_json(absstate.quick_key(tree))})
-        traces.append({"s0": s0, "events": ev})
+        traces.append({"s0": s0, "events": ev, "thr": list(_thr_rational(threshold))})
     return traces
 
 
@@ -159,7 +196,7 @@ def record_runs(n, np_, outl, kernel_name, seed, iters, threshold=0.6):
             tree = s.sample_tree(tree)
         if ev and ev[0].get("ev") == "unavailable":
             return None
-        traces.append({"s0": s0, "events": ev})
+        traces.append({"s0": s0, "events": ev, "thr": list(_thr_rational(threshold))})
     return traces
 
 
@@ -179,7 +216,7 @@ def mechanism_check(ck, prop, thorough, seed):
         traces = []
         for kn in ("boot", "semi", "full"):
             k += 1
-            tr = record_runs(n, np_, outl, kn, 100 * seed + k, (60 if thorough else 20))
+            tr = record_runs(n, np_, outl, kn, 100 * seed + k, (60 if thorough else 20), threshold=(0.6, 0.9, 0.35, 1.0)[k % 4])
             if tr is None:
                 ck.note("conditional SMC internals are no longer attachable: swarm-level trace validation skipped")
                 return 0, [], []
@@ -196,7 +233,7 @@ def mechanism_check(ck, prop, thorough, seed):
         btr = []
         for kn in ("boot", "semi", "full"):
             k += 1
-            tr = record_burnin_runs(n, np_, outl, kn, 100 * seed + k, (40 if thorough else 12))
+            tr = record_burnin_runs(n, np_, outl, kn, 100 * seed + k, (40 if thorough else 12), threshold=(0.6, 0.9, 0.35, 1.0)[k % 4])
             if tr is None:
                 break
             btr += tr
